@@ -73,7 +73,7 @@ Proof. destruct e; cbn; congruence. Qed.
 Lemma parse_rw_classes k : allowed mode_set (parse_rw k).
 Proof. unfold parse_rw. allow. Qed.
 
-Lemma special_bit_classes s i cs vs vx : allowed mode_set (special_bit s i cs vs vx).
+Lemma special_bit_classes s i cs vs vx cu vu : allowed mode_set (special_bit s i cs vs vx cu vu).
 Proof. unfold special_bit. allow. Qed.
 
 Theorem parse_unix_mode_classes s : allowed mode_set (parse_unix_mode s).
@@ -95,15 +95,27 @@ Qed.
 Theorem parse_epsv_classes s : allowed passive_set (parse_epsv_response s).
 Proof. unfold parse_epsv_response. allow. Qed.
 
-Theorem stat_mlst_classes info : allowed index_set (stat_mlst info).
-Proof. unfold stat_mlst. allow. Qed.
+Lemma parse_mlsx_text_classes (S : exc -> bool) s : S ValueError = true -> allowed S (parse_mlsx_text s).
+Proof.
+  intro H. unfold parse_mlsx_text. destruct (partition SP (rstrip s)) as [[ff sep] name].
+  destruct (negb sep || match name with [] => true | _ :: _ => false end); cbn; [exact H|exact Logic.I].
+Qed.
+
+Theorem stat_mlst_classes info : allowed passive_set (stat_mlst info).
+Proof.
+  unfold stat_mlst. apply allowed_bind; [allow|intros l].
+  apply allowed_bind; [|intros v; exact Logic.I].
+  apply parse_mlsx_text_classes. reflexivity.
+Qed.
 
 Section Codec.
   Variable dec : list Z -> option text.
   Variables ls_date win_date : text -> result text.
 
-  Theorem parse_mlsx_classes b : allowed decode_set (parse_mlsx_line dec b).
-  Proof. unfold parse_mlsx_line. allow. Qed.
+  Theorem parse_mlsx_classes b : allowed value_error (parse_mlsx_line dec b).
+  Proof.
+    unfold parse_mlsx_line. apply allowed_bind; [allow|intros s]. apply parse_mlsx_text_classes. reflexivity.
+  Qed.
 
   Lemma field_classes s : allowed funnel (field s).
   Proof. unfold field. allow. Qed.
@@ -372,16 +384,16 @@ Section ListerProofs.
         * right. exists d, m, ls, q, sc', acc, (d :: reqs). split; [|intro f; reflexivity].
           eapply pops_directory; reflexivity.
     - destruct (parse mode l) as [[name info]|e] eqn:Ep.
-      + destruct (is_dot_name name) eqn:Ed.
-        * right. exists cur, mode, ls, queue, sc, acc, reqs. split.
-          -- eapply consumes_line; [reflexivity|left; reflexivity].
-          -- intro f. cbn [lister_loop]. rewrite Ep, Ed. reflexivity.
-        * destruct (dict_get k_type info) as [t|] eqn:Et.
+      + destruct (dict_get k_type info) as [t|] eqn:Et.
+        * destruct (is_dot_name name) eqn:Ed.
+          -- right. exists cur, mode, ls, queue, sc, acc, reqs. split.
+             ++ eapply consumes_line; [reflexivity|left; reflexivity].
+             ++ intro f. cbn [lister_loop]. rewrite Ep, Et, Ed. reflexivity.
           -- right. eexists cur, mode, ls, _, sc, _, reqs. split.
-             2:{ intro f. cbn [lister_loop]. rewrite Ep, Ed, Et. reflexivity. }
+             2:{ intro f. cbn [lister_loop]. rewrite Ep, Et, Ed. reflexivity. }
              eapply consumes_line; [reflexivity|].
              destruct (text_eqb t t_dir && rec); [right; eexists; reflexivity|left; reflexivity].
-          -- left. intro f. cbn [lister_loop]. rewrite Ep, Ed, Et. cbn. split; [reflexivity|discriminate].
+        * left. intro f. cbn [lister_loop]. rewrite Ep, Et. cbn. split; [reflexivity|discriminate].
       + left. intro f. cbn [lister_loop]. rewrite Ep. cbn. split; [reflexivity|discriminate].
   Qed.
 
@@ -448,8 +460,8 @@ Section ListerProofs.
         * apply Hfin; [assumption|constructor; assumption].
         * apply IH; [assumption|assumption|constructor; assumption].
       + destruct (parse mode l) as [[name info]|e]; [|apply Hfin; assumption].
-        destruct (is_dot_name name) eqn:Ed; [apply IH; assumption|].
         destruct (dict_get k_type info) as [t|] eqn:Et; [|apply Hfin; assumption].
+        destruct (is_dot_name name) eqn:Ed; [apply IH; assumption|].
         set (y := {| e_path := posix_div cur name; e_name := name; e_info := info |}).
         apply IH.
         * constructor; [exact Ed|exact Ha].
@@ -470,11 +482,12 @@ Section ListerClasses.
   Hypothesis parse_classes : forall lm l, allowed S (parse lm l).
   Notation loop := (lister_loop L parse).
 
-  (* how a listing can end: normally, with a class of the line parser, with the server's
-     refusal, or with the KeyError of info["type"] *)
+  (* how a listing can end: normally, with a class of the line parser, with the ValueError of a
+     line without a type fact, or with the server's refusal *)
+  Hypothesis S_value_error : S ValueError = true.
   Definition lend_ok (e : lend) : Prop :=
     match e with
-    | LRaised x => S x = true \/ x = StatusCodeError \/ x = KeyError
+    | LRaised x => S x = true \/ x = StatusCodeError
     | _ => True
     end.
 
@@ -485,31 +498,13 @@ Section ListerClasses.
     induction fuel as [|f IH]; intros cur mode lines queue sc acc reqs; cbn [lister_loop]; [exact Logic.I|].
     destruct lines as [|l ls].
     - destruct queue as [|d q]; [exact Logic.I|]. destruct sc as [|[m ls] sc']; [|apply IH].
-      cbn. right. left. reflexivity.
+      cbn. right. reflexivity.
     - pose proof (parse_classes mode l) as Hc.
       destruct (parse mode l) as [[name info]|e]; [|cbn; left; exact Hc].
-      destruct (is_dot_name name); [apply IH|].
-      destruct (dict_get k_type info); [apply IH|]. cbn. right. right. reflexivity.
+      destruct (dict_get k_type info); [|cbn; left; exact S_value_error].
+      destruct (is_dot_name name); apply IH.
   Qed.
 
-  (* when every parsed line carries a type fact (true of parse_list_line), KeyError is out *)
-  Hypothesis typed : forall lm l, ok_sat has_type (parse lm l).
-  Definition lend_ok_typed (e : lend) : Prop :=
-    match e with LRaised x => S x = true \/ x = StatusCodeError | _ => True end.
-
-  Theorem lister_classes_typed fuel rec cur mode lines queue sc acc reqs :
-    lend_ok_typed (ending (loop fuel rec cur mode lines queue sc acc reqs)).
-  Proof.
-    revert cur mode lines queue sc acc reqs.
-    induction fuel as [|f IH]; intros cur mode lines queue sc acc reqs; cbn [lister_loop]; [exact Logic.I|].
-    destruct lines as [|l ls].
-    - destruct queue as [|d q]; [exact Logic.I|]. destruct sc as [|[m ls] sc']; [|apply IH].
-      cbn. right. reflexivity.
-    - pose proof (parse_classes mode l) as Hc. pose proof (typed mode l) as Ht.
-      destruct (parse mode l) as [[name info]|e]; [|cbn; left; exact Hc].
-      destruct (is_dot_name name); [apply IH|].
-      destruct Ht as [t Ht]. cbn [snd] in Ht. rewrite Ht. apply IH.
-  Qed.
 End ListerClasses.
 
 Section ListerAccounts.
@@ -519,7 +514,10 @@ Section ListerAccounts.
 
   (* the lines a completed listing does not yield *)
   Definition dropped (mode : bool) (l : L) : bool :=
-    match parse mode l with Ok (n, _) => is_dot_name n | Exc _ => false end.
+    match parse mode l with
+    | Ok (n, i) => match dict_get k_type i with Some _ => is_dot_name n | None => false end
+    | Exc _ => false
+    end.
 
   Lemma lister_accounts fuel rec cur mode lines queue acc reqs :
     let r := loop fuel rec cur mode lines queue [] acc reqs in
@@ -533,15 +531,13 @@ Section ListerAccounts.
     - destruct queue as [|d q]; [|cbn; discriminate].
       cbn. intros _. rewrite rev_length. split; [lia|constructor].
     - cbn [filter].
-      assert (Hd : dropped mode l = match parse mode l with Ok (n, _) => is_dot_name n | Exc _ => false end)
-        by reflexivity.
-      rewrite Hd. clear Hd.
+      unfold dropped at 1.
       destruct (parse mode l) as [[name info]|e] eqn:Ep; [|cbn; discriminate].
+      destruct (dict_get k_type info) as [t|]; [|cbn; discriminate].
       destruct (is_dot_name name) eqn:Ed.
       + intro H. destruct (IH cur ls queue acc reqs H) as [H1 H2].
         split; [cbn [length]; lia|constructor; [eauto|exact H2]].
-      + destruct (dict_get k_type info) as [t|]; [|cbn; discriminate].
-        intro H. match type of H with ending (loop f rec cur mode ls ?q [] ?a reqs) = _ =>
+      + intro H. match type of H with ending (loop f rec cur mode ls ?q [] ?a reqs) = _ =>
           destruct (IH cur ls q a reqs H) as [H1 H2] end.
         split; [cbn [length] in *; lia|constructor; [eauto|exact H2]].
   Qed.
@@ -576,40 +572,119 @@ Lemma parse_data_line_list_typed dec ls_date win_date limit b :
   ok_sat has_type (parse_data_line dec ls_date win_date limit true b).
 Proof. unfold parse_data_line. apply ok_sat_bind; intros _. apply list_line_has_type. Qed.
 
-(* ---- refutations (faithful model of today's code), replayed on the real code by the harness ---- *)
+(* ---- every parsed listing line NAMES something: the path is PurePosixPath(raw) for a
+   non-empty raw name column / pathname (repaired parsers: an empty name is a ValueError) ---- *)
+Definition named (v : text * dict) : Prop := exists raw, raw <> [] /\ fst v = posix_norm raw.
+
+Lemma ok_sat_guard {B} (P : B -> Prop) (c : bool) e (f : unit -> result B) :
+  (c = true -> ok_sat P (f tt)) -> ok_sat P (bind (guard c e) f).
+Proof. destruct c; cbn; intro H; [apply H; reflexivity|exact Logic.I]. Qed.
+
+Lemma ok_sat_of_opt {A B} (P : B -> Prop) e (o : option A) (f : A -> result B) :
+  (forall a, o = Some a -> ok_sat P (f a)) -> ok_sat P (bind (of_opt e o) f).
+Proof. destruct o; cbn; intro H; [apply H; reflexivity|exact Logic.I]. Qed.
+
+Lemma lstrip_head_nonspace s c r : lstrip s = c :: r -> is_space c = false.
+Proof.
+  induction s as [|x s IH]; cbn; [discriminate|].
+  destruct (is_space x) eqn:E; [exact IH|]. intro H. injection H as -> _. exact E.
+Qed.
+
+Lemma rindex_sub_starts p s : forall i, rindex_sub p s = Some i -> starts_with p (skipn i s) = true.
+Proof.
+  induction s as [|x s IH]; intros i; cbn [rindex_sub].
+  - destruct (starts_with p []) eqn:E; [|discriminate]. intro H. injection H as <-. exact E.
+  - destruct (rindex_sub p s) as [n|] eqn:En.
+    + intro H. injection H as <-. cbn [skipn]. apply IH. reflexivity.
+    + destruct (starts_with p (x :: s)) eqn:E; [|discriminate]. intro H. injection H as <-. exact E.
+Qed.
+
+Lemma is_nil_false {A} (l : list A) : negb (is_nil l) = true -> l <> [].
+Proof. destruct l; cbn; [discriminate|discriminate]. Qed.
+
+Lemma unix_named dec ls_date b : ok_sat named (parse_list_line_unix dec ls_date b).
+Proof.
+  unfold parse_list_line_unix.
+  apply ok_sat_bind; intros [[[ty mode] [[[links owner] group] size]] s5].
+  apply ok_sat_bind; intros modify. cbv zeta.
+  assert (Hhead : forall c r, strip (skipn 12 s5) = c :: r -> is_space c = false)
+    by (intros c r E; unfold strip in E; apply lstrip_head_nonspace in E; exact E).
+  set (s6 := strip (skipn 12 s5)) in *.
+  apply ok_sat_guard; intro Hs6. apply is_nil_false in Hs6.
+  destruct (text_eqb ty t_link).
+  - apply ok_sat_of_opt; intros i Hi. cbv zeta.
+    apply ok_sat_bind; intros lc. apply ok_sat_bind; intros tc. cbn [ok_sat].
+    exists (firstn i s6). split; [|reflexivity].
+    apply rindex_sub_starts in Hi.
+    destruct s6 as [|c r]; [congruence|].
+    destruct i as [|i]; [|cbn; discriminate].
+    exfalso. specialize (Hhead c r eq_refl). cbn [skipn] in Hi. unfold ARROW in Hi. cbn [starts_with] in Hi.
+    apply andb_true_iff in Hi as [Hc _]. apply Z.eqb_eq in Hc. subst c. vm_compute in Hhead. discriminate.
+  - cbn [ok_sat]. exists s6. split; [exact Hs6|reflexivity].
+Qed.
+
+Lemma windows_named dec win_date b : ok_sat named (parse_list_line_windows dec win_date b).
+Proof.
+  unfold parse_list_line_windows.
+  apply ok_sat_bind; intros [dts line]. apply ok_sat_bind; intros modify.
+  apply ok_sat_bind; intros ns. apply ok_sat_bind; intros info. cbv zeta.
+  apply ok_sat_guard; intro H. cbn [ok_sat].
+  exists (lstrip (skipn ns line)). split; [|reflexivity].
+  apply negb_true_iff, orb_false_iff in H as [H _]. destruct (lstrip (skipn ns line)); [discriminate|discriminate].
+Qed.
+
+Lemma list_line_named dec ls_date win_date b : ok_sat named (parse_list_line dec ls_date win_date b).
+Proof.
+  unfold parse_list_line.
+  pose proof (unix_named dec ls_date b) as Hu. pose proof (windows_named dec win_date b) as Hw.
+  destruct (parse_list_line_unix dec ls_date b) as [v|e]; [exact Hu|].
+  destruct (funnel e); [|exact Logic.I].
+  destruct (parse_list_line_windows dec win_date b) as [v|e']; [exact Hw|].
+  destruct (funnel e'); exact Logic.I.
+Qed.
+
+Lemma mlsx_named dec b : ok_sat named (parse_mlsx_line dec b).
+Proof.
+  unfold parse_mlsx_line. apply ok_sat_bind; intros s. unfold parse_mlsx_text.
+  destruct (partition SP (rstrip s)) as [[ff sep] name].
+  destruct name as [|c r]; [rewrite orb_true_r; exact Logic.I|].
+  destruct (negb sep || false); [exact Logic.I|]. cbn [ok_sat]. exists (c :: r). split; [discriminate|reflexivity].
+Qed.
+
+Lemma parse_data_line_named dec ls_date win_date limit lm b :
+  ok_sat named (parse_data_line dec ls_date win_date limit lm b).
+Proof.
+  unfold parse_data_line. apply ok_sat_bind; intros _.
+  destruct lm; [apply list_line_named|apply mlsx_named].
+Qed.
+
+(* ---- the former refutation witnesses (F12a/b/c, repaired): each now ends the listing with
+   ValueError instead of being dropped / raising KeyError ---- *)
 Definition utf8 : list Z -> option text := decode_with 0.
 Definition mlsd_line (b : list Z) : oline := (b, Exc ValueError, Exc ValueError).
 Definition root_path : text := [47].
 
-(* "garbage\r\n": no SP, hence no pathname; parsed to the name '.', then skipped in silence *)
-Theorem unparseable_reported_refuted :
-  exists b : list Z,
-    existsb (Z.eqb SP) b = false
-    /\ run_lister oline (parse_oline utf8 65536) false root_path [(false, [mlsd_line b])]
-       = {| yields := []; requests := [root_path]; ending := LDone |}.
-Proof. exists [103; 97; 114; 98; 97; 103; 101; 13; 10]. split; vm_compute; reflexivity. Qed.
+(* "garbage\r\n": no SP, hence no pathname *)
+Example nameless_mlsd_line_reported :
+  run_lister oline (parse_oline utf8 65536) false root_path
+             [(false, [mlsd_line [103; 97; 114; 98; 97; 103; 101; 13; 10]])]
+  = {| yields := []; requests := [root_path]; ending := LRaised ValueError |}.
+Proof. vm_compute. reflexivity. Qed.
 
-(* "size=1; notype\r\n": Client.list() raises KeyError, not the documented ValueError *)
-Theorem listing_value_error_refuted :
-  exists b : list Z,
-    ending (run_lister oline (parse_oline utf8 65536) false root_path [(false, [mlsd_line b])])
-    = LRaised KeyError.
-Proof.
-  exists [115; 105; 122; 101; 61; 49; 59; 32; 110; 111; 116; 121; 112; 101; 13; 10].
-  vm_compute. reflexivity.
-Qed.
+(* "size=1; notype\r\n": no type fact *)
+Example typeless_mlsd_line_reported :
+  ending (run_lister oline (parse_oline utf8 65536) false root_path
+            [(false, [mlsd_line [115; 105; 122; 101; 61; 49; 59; 32; 110; 111; 116; 121; 112; 101; 13; 10]])])
+  = LRaised ValueError.
+Proof. vm_compute. reflexivity. Qed.
 
-(* a unix LIST line cut after the date: empty name column, parsed to '.', skipped in silence *)
-Theorem list_nameless_dropped_refuted :
-  exists (b : list Z) (date : text),
-    run_lister oline (parse_oline utf8 65536) false root_path
-               [(true, [(b, Ok date, Exc ValueError)])]
-    = {| yields := []; requests := [root_path]; ending := LDone |}.
-Proof.
-  exists [100; 114; 119; 120; 114; 45; 120; 114; 45; 120; 32; 50; 32; 48; 32; 48; 32; 52; 48; 57; 54;
-          32; 78; 111; 118; 32; 49; 56; 32; 49; 50; 58; 50; 57; 13; 10], [50; 48].
-  vm_compute. reflexivity.
-Qed.
+(* a unix LIST line cut after the date: empty name column *)
+Example nameless_list_line_reported :
+  run_lister oline (parse_oline utf8 65536) false root_path
+             [(true, [([100; 114; 119; 120; 114; 45; 120; 114; 45; 120; 32; 50; 32; 48; 32; 48; 32; 52; 48; 57; 54;
+                        32; 78; 111; 118; 32; 49; 56; 32; 49; 50; 58; 50; 57; 13; 10], Ok [50; 48], Exc ValueError)])]
+  = {| yields := []; requests := [root_path]; ending := LRaised ValueError |}.
+Proof. vm_compute. reflexivity. Qed.
 
 (* ---- the server ---- *)
 Section ServerProofs.
@@ -691,15 +766,15 @@ Proof. reflexivity. Qed.
 (* ---- every other parser: Ok or an ordinary exception from a stated finite set ---- *)
 Theorem parsers_ordinary :
   (forall s, allowed mode_set (parse_unix_mode s))
-  /\ (forall dec b, allowed decode_set (parse_mlsx_line dec b))
+  /\ (forall dec b, allowed value_error (parse_mlsx_line dec b))
   /\ (forall s, allowed passive_set (parse_pasv_response s))
   /\ (forall s, allowed passive_set (parse_epsv_response s))
-  /\ (forall info, allowed index_set (stat_mlst info))
+  /\ (forall info, allowed passive_set (stat_mlst info))
   /\ (forall dec ls_date b, (forall s, allowed funnel (ls_date s)) ->
                             allowed funnel (parse_list_line_unix dec ls_date b))
   /\ (forall dec win_date b, (forall s, allowed funnel (win_date s)) ->
                              allowed funnel (parse_list_line_windows dec win_date b))
-  /\ (forall e, (mode_set e || decode_set e || passive_set e || index_set e || funnel e
+  /\ (forall e, (mode_set e || value_error e || passive_set e || funnel e
                  || reply_set e) = true -> ordinary e = true).
 Proof.
   repeat split.
@@ -739,6 +814,9 @@ Proof.
   apply lister_invariant; [constructor|constructor; [left; reflexivity|constructor]|constructor].
 Qed.
 
+(* FULL: for listing lines always the documented ValueError -- in MLSD and LIST mode alike
+   Client.list ends normally, with ValueError (or its subclass UnicodeDecodeError), or with the
+   server's refusal; never KeyError, never anything else *)
 Theorem lister_classes_data_line :
   forall dec ls_date win_date limit,
   (forall s, allowed funnel (ls_date s)) -> (forall s, allowed funnel (win_date s)) ->
@@ -747,20 +825,52 @@ Theorem lister_classes_data_line :
       (ending (run_lister (list Z) (parse_data_line dec ls_date win_date limit) rec path sc)).
 Proof.
   intros dec ls_date win_date limit H1 H2 rec path sc. unfold run_lister.
-  apply lister_classes. intros lm l. apply parse_data_line_classes; assumption.
+  apply lister_classes; [|reflexivity]. intros lm l. apply parse_data_line_classes; assumption.
 Qed.
 
-Theorem listing_value_error_partial :
-  forall dec ls_date win_date limit,
-  (forall s, allowed funnel (ls_date s)) -> (forall s, allowed funnel (win_date s)) ->
-  forall rec path (sc : script (list Z)),
-    lend_ok_typed value_error
-      (ending (run_lister (list Z) (fun _ => parse_data_line dec ls_date win_date limit true) rec path sc)).
+(* FULL: reports a line it cannot parse instead of dropping it.  A listing that completes has
+   parsed EVERY line to a non-empty raw name (path = PurePosixPath(raw)) and a type fact; the
+   lines it did not yield are exactly those whose non-empty name IS '.' or '..' after
+   normalisation.  So a line without a name, without a type, or on which a parser raises is
+   never in a completed listing: it ends the listing with the exception. *)
+Definition explicit_dot (dec : list Z -> option text) ls_date win_date limit (m : bool) (b : list Z) : bool :=
+  match parse_data_line dec ls_date win_date limit m b with
+  | Ok (n, _) => is_dot_name n
+  | Exc _ => false
+  end.
+
+Theorem unparseable_reported :
+  forall dec ls_date win_date limit rec path m (lines : list (list Z)),
+    let parse := parse_data_line dec ls_date win_date limit in
+    let r := run_lister (list Z) parse rec path [(m, lines)] in
+    ending r = LDone ->
+    (length (yields r) + length (filter (explicit_dot dec ls_date win_date limit m) lines) = length lines)%nat
+    /\ Forall (fun b => exists name info raw t,
+                  parse m b = Ok (name, info) /\ raw <> [] /\ name = posix_norm raw
+                  /\ dict_get k_type info = Some t) lines.
 Proof.
-  intros dec ls_date win_date limit H1 H2 rec path sc. unfold run_lister.
-  apply lister_classes_typed.
-  - intros lm l. apply parse_data_line_classes; assumption.
-  - intros lm l. apply parse_data_line_list_typed.
+  intros dec ls_date win_date limit rec path m lines parse r H.
+  pose proof (completed_listing_accounts (list Z) parse rec path m lines H) as [Hc Hall].
+  (* a completed listing never met a typeless line *)
+  assert (Htyped : Forall (fun b => exists name info t, parse m b = Ok (name, info) /\ dict_get k_type info = Some t) lines).
+  { unfold r, run_lister in H. cbn [lister_loop] in H.
+    set (fuel := lister_measure (list Z) [] [path] [(m, lines)]) in H. clearbody fuel.
+    clear Hc Hall r. revert H. generalize (@nil lentry) as acc. generalize [path] as reqs.
+    generalize (@nil text) as queue.
+    revert fuel. induction lines as [|b ls IH]; intros fuel queue reqs acc H; [constructor|].
+    destruct fuel as [|f]; [cbn in H; discriminate|]. cbn [lister_loop] in H.
+    destruct (parse m b) as [[name info]|e] eqn:Ep; [|cbn in H; discriminate].
+    destruct (dict_get k_type info) as [t|] eqn:Et; [|cbn in H; discriminate].
+    constructor; [exists name, info, t; split; [exact Ep|exact Et]|].
+    destruct (is_dot_name name); eapply IH; exact H. }
+  split.
+  - rewrite <- Hc. f_equal. f_equal. clear Hc Hall H.
+    induction Htyped as [|b ls [name [info [t [Ep Et]]]] _ IH]; [reflexivity|].
+    cbn [filter]. unfold explicit_dot at 1, dropped at 1. fold parse. rewrite Ep, Et.
+    destruct (is_dot_name name); [f_equal|]; exact IH.
+  - eapply Forall_impl; [|exact Htyped]. intros b [name [info [t [Ep Et]]]].
+    pose proof (parse_data_line_named dec ls_date win_date limit m b) as Hn. fold parse in Hn. rewrite Ep in Hn.
+    destruct Hn as [raw [Hr1 Hr2]]. exists name, info, raw, t. cbn [fst] in Hr2. auto.
 Qed.
 
 (* ---- reading the dispatcher's except clauses as regenerated by tools/py2v (Gen/Dispatch.v) ----
@@ -780,6 +890,7 @@ Definition class_of_string (s : string) : option handler_class :=
 Definition reaction_of_actions (acts : list string) : option reaction :=
   match acts with
   | ["response:451"; "continue"] => Some RContinue451
+  | ["response:426"; "response:226"; "continue"] => Some RContinue426
   | ["raise"] => Some RReraise
   | ["log"] => Some REndSession       (* nothing but logging: control falls into `finally` *)
   | _ => None
@@ -843,6 +954,7 @@ Example dispatcher_without_pop :
   dispatcher_contains [] [("Exception", ["log"])] ["loop_open=>close:control"] = false.
 Proof. reflexivity. Qed.
 Example ladder_as_read_is_todays :
-  ladder_of_facts [("errors.PathIOError", ["response:451"; "continue"])]
+  ladder_of_facts [("errors.PathIOError", ["response:451"; "continue"]);
+                   ("asyncio.CancelledError", ["response:426"; "response:226"; "continue"])]
                   [("asyncio.CancelledError", ["raise"]); ("Exception", ["log"])] = Some ladder_as_read.
 Proof. reflexivity. Qed.
